@@ -175,15 +175,15 @@ def run(ctx):
             src, pfm = x[2][0], x[2][1]
             if src[0] == 'call' and src[1] == 'asefile::reader::AseReader::' + prim and is_param(src[2][0], 1) and is_param(pfm, 2):
                 sz = src[2][1]
-                ok = sz[0] == 'call' and sz[1] == PX + 'output_size' and is_param(sz[2][0], 2) and is_param(sz[2][1], 3)
+                ok = common.is_byte_size(fx, sz, 2, 3)
                 shape = show(sz)
         sib[fn] = (ok, shape)
         ctx.inst('N8', fn, ok, '%s = from_bytes(%s(output_size(format, count)), format): %s' % (fn.split('::')[-1], prim, 'yes' if ok else show(t)[:160]),
                  b.span, key=fn + '|N8')
     for fn, inner in (('asefile::cel::parse_raw_cel', PX + 'RawPixels::from_raw'), ('asefile::cel::parse_compressed_cel', PX + 'RawPixels::from_compressed')):
-        b = ctx.anchor(fn)
+        b = fx.body(fn)
         if b is None:
-            continue
+            continue          # written inline / as an associated function: the arm shape is judged by C15.cel_arm_source below
         t = expand(res(b).ok_ret(), fx, 1, layout.noinl(fx) + (inner, 'asefile::cel::ImageSize::parse', 'asefile::cel::ImageSize::pixel_count'))
         ok = t[0] == 'agg' and t[2] == 'ImageContent'
         if ok:
@@ -193,6 +193,22 @@ def run(ctx):
                 and px[2][2][0] == 'call' and px[2][2][1] == 'asefile::cel::ImageSize::pixel_count' and px[2][2][2][0] == sz
         ctx.inst('N8', fn, ok, '%s = ImageContent{size: ImageSize::parse(r), pixels: %s(r, format, size.pixel_count())}: %s'
                  % (fn.split('::')[-1], inner.split('::')[-1], 'yes' if ok else show(t)[:160]), b.span, key=fn + '|N8')
+
+    # the two image arms of CelContent::parse are siblings: same ImageSize::parse + pixel_count, differing only in from_raw / from_compressed
+    cp = ctx.anchor('asefile::cel::CelContent::parse')
+    if cp is not None:
+        sws = q.switches_on(cp, lambda d: is_param(strip_casts(d), 3))
+        if len(sws) == 1:
+            tb = q.switch_table(cp, sws[0])
+            for v, s_ in sorted(tb['values'].items()):
+                if v not in (0, 2):
+                    continue
+                srcs = [_c15.cel_arm_source(fx, _c15.variant_of(a)[1]) for rt in tb['arms'][s_]['ret'] for a in alts(rt) if not q.is_err_term(a)]
+                ok = srcs == [_c15.CEL_VIA[v]]
+                ctx.inst('N8', 'cel type %d' % v, ok, 'cel type %d decodes ImageContent{size: ImageSize::parse(r), pixels: %s(r, format, size.pixel_count())}: %s'
+                         % (v, _c15.CEL_VIA[v].split('::')[-1], 'yes' if ok else srcs), tb['span'], key=cp.name + '|N8|%d' % v)
+        else:
+            ctx.fail(cp.name + '|N8|no-switch', 'CelContent::parse: no single match on the cel type')
 
     # ---------- N9
     render.duplicate_cel(ctx, rule='N9')
